@@ -57,6 +57,12 @@ def theorems_of(module):
 
 
 def audit(module, workdir, leanchecker=False):
+    from build import lean_lock
+    with lean_lock():
+        return _audit(module, workdir, leanchecker)
+
+
+def _audit(module, workdir, leanchecker=False):
     """Returns dict(ok, obligations, discharged, axioms{thm: [...]}, problems[...], build_output)."""
     t0 = time.time()
     res = {"module": module, "ok": False, "obligations": 0, "discharged": 0, "axioms": {}, "problems": [],
